@@ -261,4 +261,11 @@ def noSharedRefs (t : List Row) : Bool :=
 def noDrop (t : List Row) : Bool :=
   t.all fun r => r.fields.all fun f => !(f.treat == .dropped)
 
+/-- No guard stronger than a nil check. -/
+def noNeeds (t : List Row) : Bool :=
+  t.all fun r => r.fields.all fun f =>
+    match f.treat with
+    | .deep _ (.needs _) => false
+    | _ => true
+
 end InfluxQL.Heap
